@@ -27,6 +27,9 @@ func backoffInterval(min, max time.Duration) GetRetryIntervalFunc {
 	return func(resp *Response, attempt int) time.Duration {
 		temp := math.Min(capLevel, base*math.Exp2(float64(attempt)))
 		halfTemp := int64(temp / 2)
+		if halfTemp <= 0 { // nothing to randomize (min of 0, or max below 2ns); rand.Int63n would panic
+			return 0
+		}
 		sleep := halfTemp + rand.Int63n(halfTemp)
 		return time.Duration(sleep)
 	}
